@@ -1,6 +1,6 @@
 """C20 — mesh partition."""
-LEAN_TARGETS = ["EasyFEAVerif.Props.C20"]
-PROPS_MODULES = ["EasyFEAVerif.Props.C20"]
+LEAN_TARGETS = ["EasyFEAVerif.Props.C20", "EasyFEAVerif.Props.C20Mixed"]
+PROPS_MODULES = ["EasyFEAVerif.Props.C20", "EasyFEAVerif.Props.C20Mixed"]
 TRUSTED_EXTRA = [
     "C20: hand-written bookkeeping model (Props/C20) of Mesher.__Get_partitioned_groupElems for one element type and ANY element -> rank map; gmsh's partitioner and MPI transport are external; node ownership carried over from the element types processed earlier is not modelled (in gmsh's splits a boundary element belongs to the rank of an adjacent cell, which makes the passes agree with the single-pass rule): the model is compared with the real data of every group on every run",
 ]
